@@ -16,6 +16,7 @@ import (
 	"encoding/json"
 	"fmt"
 	gobig "math/big"
+	"sort"
 	"testing"
 
 	"github.com/fxamacker/cbor"
@@ -120,11 +121,12 @@ type cUpdate struct {
 	// inconsistentNu: authentically signed message whose accumulator value does not belong to its
 	// events (an inconsistent issuer): verification of the message succeeds, but a witness cannot be
 	// brought to it - the update must fail and leave the witness as it was
-	inconsistentNu bool
+	inconsistentNu   bool
+	inconsistentData []byte // the signed message the flag belongs to (a later corruption may replace it)
 }
 
 func (c *cUpdate) clone() *cUpdate {
-	n := &cUpdate{Data: append([]byte{}, c.Data...), Counter: c.Counter, inconsistentNu: c.inconsistentNu}
+	n := &cUpdate{Data: append([]byte{}, c.Data...), Counter: c.Counter, inconsistentNu: c.inconsistentNu, inconsistentData: c.inconsistentData}
 	for _, e := range c.Events {
 		n.Events = append(n.Events, cEvent{e.Index, new(big.Int).Set(e.E), append([]byte{}, e.Parent...)})
 	}
@@ -313,6 +315,7 @@ func (w *c10World) corruptions() []corruption {
 		}
 		c.Data = s.Data
 		c.inconsistentNu = true
+		c.inconsistentData = append([]byte{}, s.Data...)
 		return true
 	})
 	add("sacc.same-accumulator-signed-by-other-key", func(c *cUpdate) bool {
@@ -459,6 +462,8 @@ func (w *c10World) judge(c *cUpdate, how string) (sig, what string, reached bool
 		return "", "", false // refused by the (de)serialiser: fine
 	}
 	_, authentic := refAuthentic(pk, recv)
+	// the inconsistent-value marker only holds while the marked message is still the one presented
+	incons := c.inconsistentNu && bytes.Equal(c.Data, c.inconsistentData)
 	// ---- Update.Verify
 	u1 := cloneUpdate(recv)
 	var err error
@@ -489,11 +494,11 @@ func (w *c10World) judge(c *cUpdate, how string) (sig, what string, reached bool
 	// ---- Witness.Update, witness positioned just before the window (or at 0), and at the
 	// window's last index (the "same accumulator index" path)
 	for _, pos := range []int{w.a - 1, w.b} {
-		if c.inconsistentNu && pos == w.b {
+		if incons && pos == w.b {
 			continue
 		}
-		if s, wh := w.judgeWitness(recv, authentic && !c.inconsistentNu, how, pos); s != "" {
-			if c.inconsistentNu {
+		if s, wh := w.judgeWitness(recv, authentic && !incons, how, pos); s != "" {
+			if incons {
 				s = "inconsistent-accumulator:" + s
 			}
 			return s, wh, true
@@ -932,5 +937,209 @@ func c10FuzzJudge(t *testing.T, pk *gabikeys.PublicKey, u *Update) {
 	}
 	if authentic != (err == nil) {
 		t.Fatalf("VF-VIOLATION update-verdict-differs-from-reference(authentic=%v,err=%v)", authentic, err)
+	}
+}
+
+// ---------- wire-level structure damage: every value of the JSON / CBOR form of an update (and of
+// an event list) replaced by null, or removed; decoding and the entry points behind it must return,
+// and whatever decodes is judged by the reference
+
+func wirePaths(v any, prefix []any, out *[][]any) {
+	switch x := v.(type) {
+	case map[string]any:
+		keys := make([]string, 0, len(x))
+		for k := range x {
+			keys = append(keys, k)
+		}
+		sort.Strings(keys)
+		for _, k := range keys {
+			p := append(append([]any{}, prefix...), k)
+			*out = append(*out, p)
+			wirePaths(x[k], p, out)
+		}
+	case map[any]any:
+		keys := make([]string, 0, len(x))
+		for k := range x {
+			keys = append(keys, fmt.Sprint(k))
+		}
+		sort.Strings(keys)
+		for _, k := range keys {
+			p := append(append([]any{}, prefix...), k)
+			*out = append(*out, p)
+			wirePaths(x[k], p, out)
+		}
+	case []any:
+		for i := range x {
+			p := append(append([]any{}, prefix...), i)
+			*out = append(*out, p)
+			wirePaths(x[i], p, out)
+		}
+	}
+}
+
+// wireEdit replaces (remove=false) or removes the value at path; returns false if not applicable
+func wireEdit(root any, path []any, remove bool) bool {
+	cur := root
+	for d, step := range path {
+		last := d == len(path)-1
+		switch x := cur.(type) {
+		case map[string]any:
+			k := step.(string)
+			if last {
+				if remove {
+					delete(x, k)
+				} else {
+					x[k] = nil
+				}
+				return true
+			}
+			cur = x[k]
+		case map[any]any:
+			k := step.(string)
+			if last {
+				if remove {
+					delete(x, k)
+				} else {
+					x[k] = nil
+				}
+				return true
+			}
+			cur = x[k]
+		case []any:
+			i := step.(int)
+			if last {
+				if remove {
+					return false // removal of list elements is covered by the event-level corruptions
+				}
+				x[i] = nil
+				return true
+			}
+			cur = x[i]
+		default:
+			return false
+		}
+	}
+	return false
+}
+
+func TestVF_C10_WireStructure(t *testing.T) {
+	rec := vfh.New(t, "C10")
+	defer rec.Flush()
+	seedLib(t, uint64(rec.Seed())+7)
+	maxN := rec.N(3, 5)
+	for n := 1; n <= maxN; n++ {
+		w := newC10World(n+int(rec.Seed()), n)
+		pk := w.ch.kp.Pk
+		for a := 0; a <= n; a++ {
+			for _, how := range []string{"json", "cbor"} {
+				for _, obj := range []string{"update", "eventlist"} {
+					var doc []byte
+					var err error
+					var src any = w.ch.window(a, n, false)
+					if obj == "eventlist" {
+						src = NewEventList(w.ch.events[a : n+1]...)
+					}
+					if how == "json" {
+						doc, err = json.Marshal(src)
+					} else {
+						doc, err = cbor.Marshal(src, cbor.EncOptions{})
+					}
+					if err != nil {
+						t.Fatalf("marshal: %v", err)
+					}
+					decodeTree := func() any {
+						var tree any
+						if how == "json" {
+							d := json.NewDecoder(bytes.NewReader(doc))
+							d.UseNumber()
+							_ = d.Decode(&tree)
+						} else {
+							_ = cbor.Unmarshal(doc, &tree)
+						}
+						return tree
+					}
+					var paths [][]any
+					wirePaths(decodeTree(), nil, &paths)
+					for _, path := range paths {
+						for _, remove := range []bool{false, true} {
+							tree := decodeTree()
+							if !wireEdit(tree, path, remove) {
+								continue
+							}
+							var mutated []byte
+							if how == "json" {
+								mutated, err = json.Marshal(tree)
+							} else {
+								mutated, err = cbor.Marshal(tree, cbor.EncOptions{})
+							}
+							if err != nil {
+								continue
+							}
+							what := "null"
+							if remove {
+								what = "removed"
+							}
+							det := map[string]any{"n": n, "window": []int{a, n}, "transport": how, "object": obj, "path": fmt.Sprint(path), "edit": what}
+							rec.Case(fmt.Sprintf("wire/%s/%s/%s", obj, how, what), true, fmt.Sprintf("%d|%d|%s|%s|%v|%s", n, a, how, obj, path, what))
+							if obj == "eventlist" {
+								for _, cp := range []bool{false, true} {
+									el := EventList{ComputeProduct: cp}
+									var derr error
+									if ps := vfh.Guard(func() {
+										if how == "json" {
+											derr = json.Unmarshal(mutated, &el)
+										} else {
+											derr = cbor.Unmarshal(mutated, &el)
+										}
+									}); ps != "" {
+										rec.FailT(ps+":decoding-event-list", det)
+										continue
+									}
+									if derr != nil {
+										continue
+									}
+									upd := transportMust(w.ch.window(n, n, false), how)
+									if _, err := upd.Verify(pk); err != nil {
+										continue
+									}
+									if ps := vfh.Guard(func() { _ = upd.Prepend(&el) }); ps != "" {
+										rec.FailT(ps+":Update.Prepend(decoded list)", det)
+										continue
+									}
+									if _, auth := refAuthentic(pk, cloneUpdate(upd)); !auth {
+										rec.FailT("unauthentic-events-accepted:Update.Prepend", det)
+									}
+								}
+								continue
+							}
+							var u Update
+							var derr error
+							if ps := vfh.Guard(func() {
+								if how == "json" {
+									derr = json.Unmarshal(mutated, &u)
+								} else {
+									derr = cbor.Unmarshal(mutated, &u)
+								}
+							}); ps != "" {
+								rec.FailT(ps+":decoding-update", det)
+								continue
+							}
+							if derr != nil || u.SignedAccumulator == nil {
+								continue // refused, or no accumulator at all to verify against (a caller-side check)
+							}
+							_, authentic := refAuthentic(pk, &u)
+							var verr error
+							if ps := vfh.Guard(func() { _, verr = cloneUpdate(&u).Verify(pk) }); ps != "" {
+								rec.FailT(ps+":Update.Verify(decoded)", det)
+								continue
+							}
+							if authentic != (verr == nil) {
+								rec.FailT("update-verdict-differs-from-reference:wire-structure", det)
+							}
+						}
+					}
+				}
+			}
+		}
 	}
 }
